@@ -58,7 +58,7 @@ func (e *Engine) matchKeys(pats []string) []string {
 			continue
 		}
 		for _, p := range pats {
-			if p == "all" || strings.HasSuffix(k, p) || strings.HasSuffix(e.shortName(k), p) {
+			if p == "all" || strings.Contains(k, p) || strings.Contains(e.shortName(k), p) {
 				keys = append(keys, k)
 				break
 			}
